@@ -116,6 +116,13 @@ def run(ctx, rep):
            fn.loc(), cfg)
     # the driver: samples collected from the mapped range
     v = db.fn(VERIFY, 'C10')
+    # the function, among those verify is made of, that calls generate_queries (verify itself or a stage of it)
+    lay_ = db.layouts()
+    callers = [db.fns[p] for p in db.reach([VERIFY], {'Layout': sorted(lay_.values())[0]})
+               if db.fns[p].has_mir and not db.fns[p].compact and
+               any(t['f'].get('resolved') == GENERATE_QUERIES for _, t in db.fns[p].calls())]
+    if len(callers) == 1:
+        v = callers[0]
     Tv = exprtree.Trees(db, v)
     okv = False
     shown = ''
